@@ -10,7 +10,8 @@ Statements (all paths root-relative):
   ["ifc", path, use]         if exists: ifchange (+use) else redo-ifcreate
   ["ifcreate_raw", path]     redo-ifcreate path unconditionally
   ["always"] ["ext", name] ["failflag", name, code] ["fail", code] ["work", k] ["err", file]
-  ["out", "stdout"|"file"] ["stamp"]
+  ["out", "stdout"|"file"] ["stamp"] ["stampif", flag]   (redo-stamp only while $RV_CTL/stampflag.<flag> exists)
+  ["stampsrc", path]         redo-stamp unless source `path` currently holds its variant 1
 """
 import hashlib
 import os
@@ -109,6 +110,10 @@ def render_do(dofile, spec):
             L.append("v_out %s" % st[1])
         elif k == "stamp":
             L.append("v_stamp")
+        elif k == "stampif":
+            L.append("v_stampif %s" % shq(st[1]))
+        elif k == "stampsrc":
+            L.append("v_stampsrc %s" % shq(rel(st[1], dodir)))
         elif k == "sleep":
             L.append("sleep %s" % ("%.3f" % (st[1] / 1000.0)))
         elif k == "raw":
@@ -169,11 +174,16 @@ class Disk:
         t = self.clock.next()
         os.utime(self.abspath(p), (t, t))
 
+    def mkdir(self, p):
+        os.makedirs(self.abspath(p), exist_ok=True)
+
     def remove(self, p):
         try:
             os.unlink(self.abspath(p))
         except FileNotFoundError:
             pass
+        except IsADirectoryError:
+            os.rmdir(self.abspath(p))
 
     def read(self, p):
         try:
@@ -181,6 +191,8 @@ class Disk:
                 return f.read()
         except (FileNotFoundError, NotADirectoryError):
             return None
+        except IsADirectoryError:
+            return b"<dir>"
 
     def materialize(self, proj):
         for d in proj.get("dirs", []):
@@ -199,6 +211,16 @@ class Disk:
 
     def set_fail(self, name, on):
         p = os.path.join(self.ctl, "fail." + name)
+        if on:
+            open(p, "w").close()
+        else:
+            try:
+                os.unlink(p)
+            except FileNotFoundError:
+                pass
+
+    def set_stampflag(self, name, on):
+        p = os.path.join(self.ctl, "stampflag." + name)
         if on:
             open(p, "w").close()
         else:
